@@ -712,4 +712,6 @@ package varmq
 //@   ghost before call pool.Node.GetLastUsed: $evidence := false
 //@   ghost after call linkedlist.Node.Next when result != nil: $evidence := true
 //@   ghost after call linkedlist.Node.Prev when result != nil: $evidence := true
-//@   assert [stop-only-idle] before call pool.Node.Stop: $evidence
+// a node is stopped only with proof that it was idle: either this goroutine removed it from the idle list itself (after finding G6 was
+// repaired this is what the code relies on) or it was seen linked into the list
+//@   assert [stop-only-idle] before call pool.Node.Stop: $evidence || $own
